@@ -1142,6 +1142,10 @@ func (c *immuClient) verifiedGet(ctx context.Context, kReq *schema.KeyRequest) (
 		return nil, err
 	}
 
+	if err := checkVerifiableEntry(vEntry); err != nil {
+		return nil, err
+	}
+
 	entrySpecDigest, err := store.EntrySpecDigestFor(int(vEntry.VerifiableTx.Tx.Header.Version))
 	if err != nil {
 		return nil, err
@@ -1345,6 +1349,10 @@ func (c *immuClient) VerifiedSet(ctx context.Context, key []byte, value []byte) 
 		grpc.Header(&metadata.HeaderMD), grpc.Trailer(&metadata.TrailerMD),
 	)
 	if err != nil {
+		return nil, err
+	}
+
+	if err := checkVerifiableTx(verifiableTx); err != nil {
 		return nil, err
 	}
 
@@ -1571,6 +1579,10 @@ func (c *immuClient) VerifiedTxByID(ctx context.Context, tx uint64) (*schema.Tx,
 		return nil, err
 	}
 
+	if err := checkVerifiableTx(vTx); err != nil {
+		return nil, err
+	}
+
 	dualProof := schema.DualProofFromProto(vTx.DualProof)
 
 	var sourceID, targetID uint64
@@ -1772,6 +1784,10 @@ func (c *immuClient) VerifiedSetReferenceAt(ctx context.Context, key []byte, ref
 		return nil, err
 	}
 
+	if err := checkVerifiableTx(verifiableTx); err != nil {
+		return nil, err
+	}
+
 	if verifiableTx.Tx.Header.Nentries != 1 {
 		return nil, store.ErrCorruptedData
 	}
@@ -1941,6 +1957,10 @@ func (c *immuClient) VerifiedZAddAt(ctx context.Context, set []byte, score float
 		grpc.Header(&metadata.HeaderMD), grpc.Trailer(&metadata.TrailerMD),
 	)
 	if err != nil {
+		return nil, err
+	}
+
+	if err := checkVerifiableTx(vtx); err != nil {
 		return nil, err
 	}
 
@@ -2378,9 +2398,36 @@ func (c *immuClient) DatabaseListV2(ctx context.Context) (*schema.DatabaseListRe
 	return c.ServiceClient.DatabaseListV2(ctx, &schema.DatabaseListRequestV2{})
 }
 
+// checkVerifiableTx makes sure a server reply carries every part the client-side
+// verification dereferences: a reply with an absent sub-message must be rejected, not crash the client.
+func checkVerifiableTx(vtx *schema.VerifiableTx) error {
+	if vtx == nil || vtx.Tx == nil || vtx.Tx.Header == nil || vtx.DualProof == nil ||
+		vtx.DualProof.SourceTxHeader == nil || vtx.DualProof.TargetTxHeader == nil {
+		return store.ErrCorruptedData
+	}
+	if int(vtx.Tx.Header.Nentries) != len(vtx.Tx.Entries) {
+		return store.ErrCorruptedData
+	}
+	for _, e := range vtx.Tx.Entries {
+		if e == nil {
+			return store.ErrCorruptedData
+		}
+	}
+	return nil
+}
+
+func checkVerifiableEntry(vEntry *schema.VerifiableEntry) error {
+	if vEntry == nil || vEntry.Entry == nil || vEntry.InclusionProof == nil {
+		return store.ErrCorruptedData
+	}
+	return checkVerifiableTx(vEntry.VerifiableTx)
+}
+
 func decodeTxEntries(entries []*schema.TxEntry) {
 	for _, it := range entries {
-		it.Key = it.Key[1:]
+		if it != nil && len(it.Key) > 0 {
+			it.Key = it.Key[1:]
+		}
 	}
 }
 
